@@ -302,8 +302,11 @@ def gen_combinators(ch):
         aliases['A'] = gen.schemas(ch, depth=1, small=True)
     env = gen.Env(schema, aliases, reserved=set(aliases))
 
+    models = []
+
     def one():
         k = ch.int(0, 9)
+        models.append(None)
         if k == 0:
             return 'True'
         if k == 1:
@@ -312,9 +315,81 @@ def gen_combinators(ch):
         if ch.int(0, 2) == 0:
             for _ in range(ch.int(1, 4)):  # chains of leading negations: negate() must respect their parity
                 m = ('un', 'not', m)
+        models[-1] = m
         return mast.render(m)
 
-    return {'p': one(), 'q': one(), 'this': schema, 'aliases': aliases}
+    p = one()
+    k = ch.int(0, 6)
+    mp = models[0]
+    if k <= 1 and mp is not None:
+        # a close relative of p (one operator / literal / quantifier kind changed), p itself, or its negation:
+        # rules that key on structural similarity of the two operands only fire on such pairs
+        _, n = mutate_model(mp, -1)
+        q = mast.render(mutate_model(mp, ch.int(0, n - 1))[0]) if n else p
+    elif k == 2 and mp is not None:
+        q = p
+    elif k == 3 and mp is not None:
+        q = mast.render(('un', 'not', mp))
+    else:
+        q = one()
+    return {'p': p, 'q': q, 'this': schema, 'aliases': aliases}
+
+
+REL_SWAP = {'<': '>=', '<=': '>', '>': '<', '>=': '=', '=': '!=', '!=': '<'}
+CONN_SWAP = {'and': 'or', 'or': 'implies', 'implies': 'and', 'iff': 'and'}
+
+
+def mutate_model(m, which):
+    """One small change at the which-th eligible node of a condition model (relational or connective operator swapped,
+    quantifier kind flipped, integer literal changed)."""
+    state = {'i': 0}
+
+    def f(n):
+        elig = (n[0] == 'bin' and (n[1] in REL_SWAP or n[1] in CONN_SWAP)) or n[0] == 'q' or (n[0] == 'lit' and n[1] == 'int')
+        if not elig:
+            return n
+        state['i'] += 1
+        if state['i'] - 1 != which:
+            return n
+        if n[0] == 'bin':
+            return ('bin', REL_SWAP.get(n[1]) or CONN_SWAP[n[1]], n[2], n[3])
+        if n[0] == 'q':
+            return ('q', 'exists' if n[1] == 'forall' else 'forall', n[2], n[3], n[4])
+        return ('lit', 'int', str(int(n[2]) + 1))
+
+    out = mast.map_expr(m, f)
+    return out, state['i']
+
+
+def join_table():
+    """Pairs of quantified conditions over the same variable and domain (and the same / the other quantifier kind):
+    what a rule that merges 'similar' operands of join() would look at."""
+    from hplverif import small
+    from hplverif.mast import binop
+
+    for qk1 in ('forall', 'exists'):
+        for qk2 in ('forall', 'exists'):
+            for dom in small.DOMAINS:
+                for b1 in small.VAR_BODIES:
+                    for b2 in small.VAR_BODIES:
+                        yield {'p': mast.render(('q', qk1, 'i', dom, b1)), 'q': mast.render(('q', qk2, 'i', dom, b2)), 'this': small.SMALL_THIS, 'aliases': small.SMALL_ALIASES}
+    atoms = small.bool_terms(0)
+    for a in atoms:
+        for b in atoms:
+            for op1 in ('and', 'or'):
+                yield {'p': mast.render(binop(op1, a, b)), 'q': mast.render(binop(op1, b, a)), 'this': small.SMALL_THIS, 'aliases': small.SMALL_ALIASES}
+                yield {'p': mast.render(a), 'q': mast.render(('un', 'not', binop(op1, a, b))), 'this': small.SMALL_THIS, 'aliases': small.SMALL_ALIASES}
+
+
+def run_join_table(ctx, limit):
+    with ctx.timed('join-table'):
+        for inp in join_table():
+            try:
+                r = sub_combinators(inp, limit)
+            except Violation as v:
+                ctx.report(v)
+                r = 'violation'
+            ctx.case(('join-table', inp['p'], inp['q']), r == 'both-nonvacuous', f'join-table:{r}')
 
 
 def gen_this_to_var(ch):
@@ -406,6 +481,7 @@ def shard(ctx, shard_no, nshards, n):
 
 def run(ctx):
     run_degenerate(ctx)
+    run_join_table(ctx, 32)
     if ctx.tier == 'quick':
         core.run_sharded(ctx, __name__, 'shard', 1, (1000,))
     else:
